@@ -128,6 +128,67 @@ fn delete_tables(path: &std::path::Path, which: u8) -> R<Vec<String>> {
     Ok(deleted)
 }
 
+/// Re-encode the whole database file row for row in the format of the releases that used redb 2.x (variable-width tuples
+/// carry the old type tag: `Legacy<_>` of redb 3), every table included - also the settings and the remembered peers.
+fn write_in_old_format(path: &std::path::Path) -> R<()> {
+    use redb::{ReadableDatabase, ReadableMultimapTable, ReadableTable, ReadableTableMetadata};
+    type RecordsKey<'a> = (&'a [u8; 32], &'a [u8; 32], &'a [u8]);
+    type RecordsValue<'a> = (u64, &'a [u8; 64], &'a [u8; 64], u64, &'a [u8; 32]);
+    type LatestKey<'a> = (&'a [u8; 32], &'a [u8; 32]);
+    type LatestValue<'a> = (u64, &'a [u8]);
+    type ByKeyKey<'a> = (&'a [u8; 32], &'a [u8], &'a [u8; 32]);
+    let target = path.with_extension("old-format");
+    let _ = std::fs::remove_file(&target);
+    {
+        let src = es(redb::Database::create(path))?;
+        let rtx = es(src.begin_read())?;
+        let names: Vec<String> = es(rtx.list_tables())?.map(|h| redb::TableHandle::name(&h).to_string()).collect();
+        let multi: Vec<String> = es(rtx.list_multimap_tables())?.map(|h| redb::MultimapTableHandle::name(&h).to_string()).collect();
+        let dst = es(redb_v3::Database::create(&target))?;
+        let wtx = es(dst.begin_write())?;
+        {
+            macro_rules! copy {
+                ($name:expr, $cur:ty, $curv:ty, $old:ty, $oldv:ty) => {
+                    if names.iter().any(|n| n == $name) {
+                        const CUR: redb::TableDefinition<$cur, $curv> = redb::TableDefinition::new($name);
+                        const OLD: redb_v3::TableDefinition<$old, $oldv> = redb_v3::TableDefinition::new($name);
+                        let from = es(rtx.open_table(CUR))?;
+                        let mut to = es(wtx.open_table(OLD))?;
+                        let _ = es(from.len())?;
+                        for row in es(from.iter())? {
+                            let (k, v) = es(row)?;
+                            es(to.insert(k.value(), v.value()))?;
+                        }
+                    }
+                };
+            }
+            copy!("authors-1", &[u8; 32], &[u8; 32], &[u8; 32], &[u8; 32]);
+            copy!("namespaces-1", &[u8; 32], &[u8; 32], &[u8; 32], &[u8; 32]);
+            copy!("namespaces-2", &[u8; 32], (u8, &[u8; 32]), &[u8; 32], (u8, &[u8; 32]));
+            copy!("download-policy-1", &[u8; 32], &[u8], &[u8; 32], &[u8]);
+            copy!("records-1", RecordsKey, RecordsValue, redb_v3::Legacy<RecordsKey>, RecordsValue);
+            copy!("latest-by-author-1", LatestKey, LatestValue, LatestKey, redb_v3::Legacy<LatestValue>);
+            copy!("records-by-key-1", ByKeyKey, (), redb_v3::Legacy<ByKeyKey>, ());
+            if multi.iter().any(|n| n == "sync-peers-1") {
+                const CUR: redb::MultimapTableDefinition<&[u8; 32], (u64, &[u8; 32])> = redb::MultimapTableDefinition::new("sync-peers-1");
+                const OLD: redb_v3::MultimapTableDefinition<&[u8; 32], (u64, &[u8; 32])> = redb_v3::MultimapTableDefinition::new("sync-peers-1");
+                let from = es(rtx.open_multimap_table(CUR))?;
+                let mut to = es(wtx.open_multimap_table(OLD))?;
+                for row in es(from.iter())? {
+                    let (k, vs) = es(row)?;
+                    for v in vs {
+                        let v = es(v)?;
+                        es(to.insert(k.value(), v.value()))?;
+                    }
+                }
+            }
+        }
+        es(wtx.commit())?;
+    }
+    es(std::fs::rename(&target, path))?;
+    Ok(())
+}
+
 fn db_check(path: &std::path::Path) -> R<()> {
     let db = es(redb::Database::create(path))?;
     let tx = es(db.begin_read())?;
@@ -161,7 +222,12 @@ impl Prop for C18 {
             any::<bool>(),
             // bit 2: the documents are moved back into the old `namespaces-1` table (id -> write secret), as in a database
             // written before the capability table existed
-            (prop_oneof![1 => Just(0u8), 3 => Just(1u8), 3 => Just(2u8), 3 => Just(3u8)], prop::bool::weighted(0.35)).prop_map(|(d, old)| if old { d | 4 } else { d }),
+            (prop_oneof![1 => Just(0u8), 3 => Just(1u8), 3 => Just(2u8), 3 => Just(3u8)], prop::bool::weighted(0.35), prop::bool::weighted(0.2)).prop_map(|(d, old, legacy)| {
+                // bit 3: the whole file is re-encoded in the tuple format of the releases built on redb 2.x; half of those
+                // cases keep every table, so that nothing needs rebuilding and nothing at all may change
+                let d = if legacy && d & 1 == 1 { 0 } else { d };
+                (if old { d | 4 } else { d }) | if legacy { 8 } else { 0 }
+            }),
             0u8..=3,
             vec(qgen_by_key(), 1..=12),
             prop::option::weighted(0.0025, (0u8..8, 0u8..4)),
@@ -222,7 +288,13 @@ impl Prop for C18 {
             let heads_before = head_keys(&mut store)?;
             drop(store);
 
-            let deleted = delete_tables(&path, c.delete)?;
+            let mut deleted = delete_tables(&path, c.delete)?;
+            if c.delete & 8 != 0 {
+                // the file as one of the releases built on redb 2.x left it (every table, whatever was deleted above stays deleted)
+                write_in_old_format(&path)?;
+                deleted.push("whole file re-encoded in the redb 2.x tuple format".to_string());
+                o.class("file-in-the-redb-2.x-tuple-format");
+            }
             if c.delete & 4 != 0 {
                 o.class("documents-in-the-old-namespaces-table");
             }
@@ -315,7 +387,7 @@ impl Prop for C18 {
     }
 
     fn assumptions() -> Vec<String> {
-        vec!["an 'older database' is emulated by deleting the derived tables with plain redb 4.1; the redb 2.x tuple migration is covered by the repository's own tests only".into()]
+        vec!["an 'older database' is emulated by deleting the derived tables with plain redb 4.1; files in the redb 2.x tuple format are written with redb 3 (Legacy types)".into()]
     }
 }
 
